@@ -163,6 +163,10 @@ def build(tdgl, tree, flavour="exact"):
     """The expression built with the real classes, through the Python operators."""
     if flavour == "exact" and kinds(tree) & TWINS:
         flavour = "twin"      # every leaf of a twinned expression comes from the twin-capable definitions
+    if tree["k"] == "C":
+        # a number of any value (ParamAlg.Num; units of 1/Q): an int where it is integral, as Python's arithmetic on 2 and 0.5 gives
+        v = tree["v"] / Q
+        return int(v) if v == int(v) and abs(tree["v"]) >= Q else v
     if tree["k"] != "N":
         return make_leaf(tdgl, tree["k"], flavour)
     left = build(tdgl, tree["l"], flavour)
@@ -171,6 +175,8 @@ def build(tdgl, tree, flavour="exact"):
 
 
 def show(tree):
+    if tree["k"] == "C":
+        return f"{tree['v'] / Q:g}"
     if tree["k"] != "N":
         return {"I": "2", "F": "0.5"}.get(tree["k"], tree["k"])
     return f"({show(tree['l'])} {OPSYM[tree['op']]} {show(tree['r'])})"
@@ -182,6 +188,37 @@ def level(tree):
 
 def kinds(tree):
     return {tree["k"]} if tree["k"] != "N" else kinds(tree["l"]) | kinds(tree["r"])
+
+
+def leaf_value(k, point, t=0.0):
+    """Value of an abstract parameter leaf as built by make_leaf (flavour exact), from the definitions above."""
+    x, y, z = point
+    return {"P2": lambda: p2(x, y, a=2), "P3": lambda: p3(x, y, z, b=1), "PT": lambda: pt(x, y, z, t=t, c=1)}[k]()
+
+
+def chain_stats(items):
+    """Vacuity numbers for the chains of scalars (ParamAlg.ScalarChain): how many were enumerated per nesting and operator,
+    how many single-operator forms they are compared with, and - for ((X ** 2) ** 0.5) - at how many (leaf, point, time)
+    the leaf is NEGATIVE and the model's value is the exact |leaf| (so the value is claimed, not outside the domain)."""
+    per, nfold, nabs = {}, 0, 0
+    for it in items:
+        if not it.get("chain"):
+            continue
+        tr = it["tree"]
+        left = tr["r"]["k"] in ("I", "F") and tr["l"]["k"] == "N"
+        per[f"{'left' if left else 'right'}:{tr['op']}"] = per.get(f"{'left' if left else 'right'}:{tr['op']}", 0) + 1
+        nfold += sum(1 for o in it["eqs"] if o["k"] == "N" and "C" in (o["l"]["k"], o["r"]["k"]))
+        if left and tr["op"] == "pow" and tr["l"]["r"]["k"] == "I" and tr["r"]["k"] == "F":
+            k = tr["l"]["l"]["k"]
+            for f, kind in it["expect"].items():
+                if kind != "val":
+                    continue
+                for n, t in enumerate(TIMES):
+                    for j, a in enumerate(("s1", "s2", "s3")):
+                        v = leaf_value(k, BASE[j], t / Q)
+                        if v < 0 and it["vals"][f][n][a] == [round(-v * Q)]:
+                            nabs += 1
+    return per, nfold, nabs
 
 
 # ---------------------------------------------------------------- abstraction
